@@ -7,6 +7,7 @@ symlink targets, arbitrary order and repetition, arbitrary nesting), all option 
 file list may be filled in, every unpack root `R` and every initial file system `fs₀` in which `R` is fresh.
 -/
 import Sqfs.Proofs.UnpackComplete
+import Sqfs.Proofs.UnpackWeak
 namespace Sqfs.C06
 open Sqfs.Path Sqfs.Unpack
 
@@ -299,6 +300,42 @@ theorem skip_reports_exact (fl : Flags) (t : TNode) (h : (restoreFstree fl t).er
     (restoreFstree fl t).skips = skippedRoot t :=
   (restoreFstreeN_complete fl t h).2
 
+/-! ### confinement from a weaker hypothesis on R; the modelled fill order -/
+
+/-- **Confinement without freshness.**  The unpack root may hold anything — files, directories, devices, sockets, e.g. what
+    an earlier run left — as long as no *symbolic link* sits strictly below it: then, whatever fails, the run leaves
+    everything that is not strictly below `R` unchanged.  (`Fresh fs₀ R` implies `NoLinkBelow fs₀ R`;
+    `Witness.C06.prepopulated_symlink_escapes` shows that this hypothesis cannot be dropped.) -/
+theorem confinement_without_symlinks_below (ord : List FileEnt → List FileEnt) (hord : OrdOK ord) (fl : Flags) (t : TNode)
+    (R : PathC) (fs₀ : Fs) (h : NoLinkBelow fs₀ R) : ConfinedF R fs₀ (unpackTree ord fl t).syscalls := by
+  intro flt i
+  cases hs : treeSort t with
+  | error e => rw [unpackTree_dup ord fl t e hs]; rfl
+  | ok t' =>
+    exact (InvW.run (visitRoot_fun (treeSort_nodup t t' hs)) (visitRoot_prefix t') flt _ i fs₀ (InvW.start h)
+      (unpackTree_ops ord hord fl t t' hs)).outside_eq
+
+/-- `main`, end to end, from the weaker hypothesis: if the directory the process stands in after `chdir(R)` has no symbolic
+    link below it, the rest of the run changes nothing that is not strictly below it -/
+theorem main_confinement_weak (ord : List FileEnt → List FileEnt) (hord : OrdOK ord) (fl : Flags) (t : TNode) (root : Option Bytes)
+    (flt : Faults) (cwd₀ : PathC) (fs₀ : Fs)
+    (h : NoLinkBelow (unpackMain ord fl t root flt cwd₀ fs₀).fsEst (unpackMain ord fl t root flt cwd₀ fs₀).cwd) :
+    outside (unpackMain ord fl t root flt cwd₀ fs₀).cwd (unpackMain ord fl t root flt cwd₀ fs₀).fs =
+      outside (unpackMain ord fl t root flt cwd₀ fs₀).cwd (unpackMain ord fl t root flt cwd₀ fs₀).fsEst := by
+  cases he : (unpackMain ord fl t root flt cwd₀ fs₀).established with
+  | false => rw [(main_not_established ord fl t root flt cwd₀ fs₀ he).2.2]
+  | true =>
+    obtain ⟨t', i, hs, hfs, _⟩ := main_established ord fl t root flt cwd₀ fs₀ he
+    rw [hfs, ← unpackTree_eq ord fl hs]
+    exact confinement_without_symlinks_below ord hord fl t _ _ h flt i
+
+/-- freshness is a special case -/
+theorem fresh_implies_no_link_below (fs : Fs) (R : PathC) (h : Fresh fs R) : NoLinkBelow fs R := h.noLinkBelow
+
+/-- the model of `qsort(compare_files)` (images without fragments) is a fill order in the sense of the theorems: it
+    invents no entry (`OrdOK`) and loses none (`OrdAll`) -/
+theorem ordByLoc_is_a_fill_order : OrdOK ordByLoc ∧ OrdAll ordByLoc := ordByLoc_ok
+
 /-! ### non-vacuity and sanity of the model -/
 
 section examples
@@ -386,6 +423,27 @@ example : (unpackPlan (.mk [] .dir [] {} [.mk A .reg [] { xattrs := [(X, [1]), (
 -- mkdir_p.c: "//a//b/" → mkdir "/a", "/a/", "/a//b", "/a//b/";  "" and "/" → nothing
 example : mkdirPCuts [SL, SL, 97, SL, SL, 98, SL] = [[SL, 97], [SL, 97, SL], [SL, 97, SL, SL, 98], [SL, 97, SL, SL, 98, SL]] ∧
     mkdirPCuts [] = [] ∧ mkdirPCuts [SL] = [] ∧ mkdirPCuts [SL, SL, SL] = [] ∧ mkdirPCuts [97, SL, 98] = [[97], [97, SL, 98]] := by decide
+/-- `/R` holds a file and a directory with a file (left by an earlier run), no symbolic link: not fresh, but `NoLinkBelow` -/
+private def fs4 : Fs := fun q =>
+  if q = [] ∨ q = [Rn] ∨ q = [Rn, B] then some ⟨.dir, {}⟩ else if q = [X] ∨ q = [Rn, A] ∨ q = [Rn, B, A] then some ⟨.file [1], {}⟩ else none
+
+example : NoLinkBelow fs4 [Rn] ∧ ¬ Fresh fs4 [Rn] := by
+  refine ⟨⟨⟨_, rfl⟩, ?_⟩, ?_⟩
+  · intro p _ t a
+    unfold fs4
+    split
+    · intro e; cases e
+    · split
+      · intro e; cases e
+      · intro e; cases e
+  · intro h
+    have := h.2 [Rn, A] (by decide)
+    revert this
+    decide
+-- unpacking into it: `symlink a` meets the old file (EEXIST), the run ends there, exit status 1, `/x` untouched
+example : (unpackMain id {} (hostile false) (some Rn) noFaults [] fs4).exit = 1 ∧
+    (unpackMain id {} (hostile false) (some Rn) noFaults [] fs4).trace = [(.symlink upX A, some .EEXIST)] ∧
+    (unpackMain id {} (hostile false) (some Rn) noFaults [] fs4).fs [X] = some ⟨.file [1], {}⟩ := by decide
 end examples
 
 end Sqfs.C06
